@@ -117,6 +117,15 @@ def check_candidate(ctx, s):
         st, v = ctx.call(getattr(keys, fname), s)
         ctx.check("reject: unknown keys raise the note-format error", st == "exc" and isinstance(v, NoteFormatError),
                   dict(w, call="keys." + fname), "NoteFormatError", repr(v), mechanism="reject:" + fname)
+    # ... and through the diatonic functions, which take the key as their second argument (with a valid note)
+    if len(s) <= 2 or s[:1] in "Cc{%":
+        for fname in STEPFN[(len(s) + (ord(s[0]) if s else 0)) % 6::3]:
+            st, v = ctx.call(getattr(intervals, fname), "E", s)
+            ctx.check("reject: unknown keys raise the note-format error", st == "exc" and isinstance(v, NoteFormatError),
+                      dict(w, call="intervals." + fname), "NoteFormatError", repr(v), mechanism="reject:intervals." + fname)
+        st, v = ctx.call(intervals.interval, s, "E", 2)
+        ctx.check("reject: unknown keys raise the note-format error", st == "exc" and isinstance(v, NoteFormatError),
+                  dict(w, call="intervals.interval"), "NoteFormatError", repr(v), mechanism="reject:intervals.interval")
     ctx.case(("cand", s))
 
 
@@ -231,6 +240,8 @@ def run(shard, ctx):
                   "Fb", "fb", "B#", "E#", "cb", "Db ", "g##", "G##"]:
             if s[0] in firsts:
                 check_candidate(ctx, s)
+        if "C" in firsts:
+            check_candidate(ctx, "")        # the empty string is a candidate key like any other
         if "C" in firsts or "c" in firsts or "#" in firsts:
             for s in T.HOSTILE_STRINGS:
                 if s[0] in firsts or (s[0] not in "ABCDEFGabcdefg" and "#" in firsts):
